@@ -19,6 +19,11 @@
          the second carries the first's nonce are symbolic.  Oracle: the table along the history "nonces accepted
          so far", which is the worker's and not a key's (a nonce accepted under one kid is ``replayed`` under any
          other — rotation overlap), and which a refused proof never enters.
+(b'') xh: histories with a clock — four (thorough: five) presentations of two (three) valid tokens through the same stubbed
+         verifier against the REAL ``NonceCache`` (ttl = skew, as the gate builds it), wall clock and cache clock advancing
+         together by symbolic steps, symbolic skew and token timestamps.  Oracle: the table with step 9 read as written —
+         ``replayed`` iff the nonce was accepted less than ``skew`` seconds ago (§10: entries expire after ``skew`` seconds);
+         refused presentations (of it or of another nonce) in between change nothing.
 (c) xh : ``canonical_string`` on short symbolic fields == NUL-join of the domain prefix and the four
          fields (an out-of-charset field may instead be refused with ValueError, spec §4), and is
          injective on NUL-free fields.
@@ -41,6 +46,7 @@ from engine.api import QUICK, REPO, HarnessModelError, cond, pick, task
 from engine.reglob import reglobalize
 
 from vgi_rpc.http import _proof as pf
+from vgi_rpc.http import _replay as rp
 from vgi_rpc.http._unauthorized import AuthReason, classify_auth_failure
 
 PROPERTY = "C22"
@@ -49,11 +55,11 @@ BOUNDS = (
     "rx: all strings over code points 0..0x2FFFF; decision table: unbounded ints for token length/now/skew(>=0), 0<=ts<10**20 (the 20-digit "
     "row of §3), |now|<=2**53 when read from the float wall clock, field count 1..7, "
     "version any str len<=3, per-field charset verdict free, key map 3 kids (two share a label), history = one bit (nonce accepted before or not); "
-    "histories of two well-formed in-window presentations (kid 0..3, MAC right/wrong, same/other nonce) on an initially empty history; canonical_string: one varied field len<=2 (nonce: 20 fixed + <=2); gate: header absent or "
+    "histories of two well-formed in-window presentations (kid 0..3, MAC right/wrong, same/other nonce) on an initially empty history; histories of 4 (thorough 5) presentations of 2 (3) valid tokens with unbounded int clock steps / skew / timestamps over the real NonceCache; canonical_string: one varied field len<=2 (nonce: 20 fixed + <=2); gate: header absent or "
     "any str len<=2; un-stubbed: all tokens len<=%d and one-field mutations len<=2 of a minted token" % pick(6, 8)
 )
 OUTSIDE = (
-    "HMAC-SHA256 and the base64url decoder themselves (ideal stubs); the wall clock; NonceCache internals and concurrency (C23); the HTTP "
+    "HMAC-SHA256 and the base64url decoder themselves (ideal stubs); the wall clock; NonceCache capacity eviction and concurrency (C23), and whether a nonce is still remembered at the very instant accepted+skew; longer histories; the HTTP "
     "rendering of the 401 (C21); len(token) counts characters where the spec says bytes — unobservable, every non-ASCII token is "
     "'malformed' at step 3/4 anyway"
 )
@@ -65,6 +71,9 @@ ASSUMPTIONS = [
     "nonce history: one-presentation items — a single symbolic bit 'this nonce was accepted before', which only answers a cache lookup made with "
     "the nonce itself (any other key: HarnessModelError); two-presentation item — a seen-set with NonceCache's test-and-set contract, keys compared "
     "by equality, an opaque field rendering (str / f-string) as its own distinct tag",
+    "histories with a clock: the real NonceCache with its public ttl_seconds attribute set to the int skew after construction (the constructor applies float(); the code only "
+    "adds and compares it; import-time witness that the attribute is what the code reads, else HarnessModelError) and an int monotonic clock that advances exactly with the wall clock; "
+    "default capacity (never reached); the replay uses the real constructor and a float clock",
     "clocks and skew are ints (comparisons and subtraction only); their rendering inside ProofError messages is abstracted to a constant (message text is not part of the claim)",
 ]
 
@@ -218,6 +227,7 @@ _F_X5, _F_X6 = _Field("extra5"), _Field("extra6")
 # a second presentation (item nonce_history_is_per_worker): another kid string / another nonce string.  An opaque field
 # renders (str / f-string) as its own tag, so a value derived from fields by formatting is distinct iff the fields are.
 _F_KID_B, _F_NONCE_B = _Field("kid-b"), _Field("nonce-b")
+_F_KID_C, _F_NONCE_C = _Field("kid-c"), _Field("nonce-c")  # a third token (item nonce_window_*)
 
 
 def _cur_kid():  # type: ignore[no-untyped-def]
@@ -716,13 +726,13 @@ def verify_equals_decision_table_wall_clock(length: int, nfields: int, version: 
 # accepted so far" — the worker's, whatever kid each was accepted under (rotation overlap: several kids configured at once).
 
 
-def _present(cache, kid_field, nonce_field, kid_sel: int, mac_ok: bool) -> str:  # type: ignore[no-untyped-def]
-    """One otherwise well-formed, in-window presentation through the stubbed verifier; returns the reason or 'ok'."""
+def _present(cache, kid_field, nonce_field, kid_sel: int, mac_ok: bool, ts=1000, wall=1000, skew=30) -> str:  # type: ignore[no-untyped-def]
+    """One otherwise well-formed presentation (by default in-window) through the stubbed verifier; returns the reason or 'ok'."""
     _H.clear()
-    _H.update(length=100, nfields=5, version="v1", kid_ok=True, ts_ok=True, nonce_ok=True, mac_cs=True, kid_sel=kid_sel, ts=1000, wall=1000,
+    _H.update(length=100, nfields=5, version="v1", kid_ok=True, ts_ok=True, nonce_ok=True, mac_cs=True, kid_sel=kid_sel, ts=ts, wall=wall,
               mac_ok=mac_ok, fresh=True, order=[], macs=[], compared=[], cache_args=[], kid_field=kid_field, nonce_field=nonce_field)
     try:
-        _verify_stubbed(_TOKEN, secrets=_SECRETS, origin_id=_ORIGIN, skew_seconds=_SymInt(30), nonce_cache=cache, now=_SymInt(1000))
+        _verify_stubbed(_TOKEN, secrets=_SECRETS, origin_id=_ORIGIN, skew_seconds=_SymInt(skew), nonce_cache=cache, now=_SymInt(wall))
     except pf.ProofError as e:
         return e.reason
     return "ok"
@@ -790,6 +800,198 @@ def nonce_history_is_per_worker(kid_sel1: int, mac_ok1: bool, kid_sel2: int, mac
     except Exception:  # noqa: BLE001
         return False  # only ProofError may escape
     return got1 == want1 and got2 == want2
+
+
+# (b'') histories with a clock: step 9 says "already seen *within the window*", §10 "entries expire after `skew` seconds".
+# The history is the worker's list of (nonce, time it was accepted); a presentation is `replayed` iff its nonce was accepted
+# less than `skew` seconds ago, and accepted (steps 2-8 permitting) once every acceptance of it is more than `skew` seconds
+# old — however many refused presentations, of it or of other nonces, happened in between.  Underneath is the real
+# NonceCache (its sweep / ordering logic is what makes the clause true or false), driven by the stubbed verifier.
+
+_W0 = 1_000_000  # wall clock at the start of a history; the cache's monotonic clock starts at 0; both advance together
+_TOK_FIELDS = ((_F_KID, _F_NONCE, 1), (_F_KID_B, _F_NONCE_B, 2), (_F_KID_C, _F_NONCE_C, 3))  # token k: kid field, nonce field, configured kid it names
+
+
+class _World:
+    """The cache's monotonic clock (an int: NonceCache only adds the TTL to it and compares)."""
+
+    def __init__(self) -> None:
+        self.t = 0
+
+    def __call__(self):  # type: ignore[no-untyped-def]
+        return self.t
+
+
+def _int_ttl_cache(ttl, clock):  # type: ignore[no-untyped-def]
+    """NonceCache built as the gate builds it (ttl = skew, default capacity: no eviction in a history of a few presentations)
+    whose public ttl_seconds attribute holds the integer model of the TTL (the constructor applies float() to it)."""
+    cache = rp.NonceCache(ttl_seconds=1, clock=clock)
+    try:
+        cache.ttl_seconds = ttl
+    except AttributeError as e:
+        raise HarnessModelError("NonceCache.ttl_seconds is no longer a settable attribute") from e
+    return cache
+
+
+def _ttl_attribute_is_live() -> bool:
+    try:
+        w = _World()
+        c = _int_ttl_cache(5, w)
+        c.check_and_add("x")
+        w.t = 3  # inside a 5-unit window, outside the constructor's 1-unit one
+        return c.check_and_add("x") is False
+    except Exception:  # noqa: BLE001
+        return False
+
+
+_TTL_LIVE = _ttl_attribute_is_live()
+
+
+def _window_run(present, skew, toks: list, deltas: list, offs: list):  # type: ignore[no-untyped-def]
+    """Walk one history; `present(k, ts, t)` -> reason | 'ok' for token k (timestamp ts) shown at world time t.
+    Returns None when every outcome is the table's, else (index, got, want, kind)."""
+    t = 0
+    accepted: list = []  # (token, world time) of the presentations the verifier accepted
+    for i in range(len(toks)):
+        t = t + deltas[i]
+        k = toks[i]
+        ts = _W0 + offs[k]
+        got = present(k, ts, t)
+        want = _table(100, 5, "v1", True, True, True, True, _TOK_FIELDS[k][2], _W0 + t, ts, skew, True, True, True)  # rows 2-8
+        if want != "ok":
+            if got != want:
+                return (i, got, want, "steps-6-7")
+            continue
+        inside = False
+        boundary = False
+        for kk, tj in accepted:
+            if kk == k:
+                if t - tj < skew:
+                    inside = True
+                elif t - tj == skew:
+                    boundary = True  # "expire after skew seconds": the instant itself is left to the implementation
+        if inside:
+            if got != "replayed":
+                return (i, got, "replayed", "accepted-inside-window")
+        elif not boundary and got != "ok":
+            return (i, got, "ok", "replayed-after-window" if got == "replayed" else "other")
+        elif got != "ok" and got != "replayed":
+            return (i, got, "ok or replayed", "other")
+        if got == "ok":
+            accepted.append((k, t))
+    return None
+
+
+def _window_stubbed(skew, toks: list, deltas: list, offs: list) -> bool:  # type: ignore[no-untyped-def]
+    if not _TTL_LIVE:
+        raise HarnessModelError("NonceCache no longer reads its ttl_seconds attribute: the integer-TTL model does not apply")
+    world = _World()
+    cache = _int_ttl_cache(skew, world)
+
+    def present(k, ts, t):  # type: ignore[no-untyped-def]
+        world.t = t
+        kid_field, nonce_field, sel = _TOK_FIELDS[k]
+        return _present(cache, kid_field, nonce_field, sel, True, ts=ts, wall=_W0 + t, skew=skew)
+
+    try:
+        return _window_run(present, skew, toks, deltas, offs) is None
+    except HarnessModelError:
+        raise
+    except Exception:  # noqa: BLE001
+        return False  # only ProofError may escape
+
+
+def _window_real(skew: int, toks: list, deltas: list, offs: list):  # type: ignore[no-untyped-def]
+    """The same history on the real verifier, the real NonceCache (real constructor, float clock), tokens from spec §3/§4."""
+    real = {1: b"\x01" * 32, 2: b"\x02" * 32, 3: b"\x04" * 32}
+    names = {1: "kid-one", 2: "kid-two", 3: "kid-three"}
+    secrets = {"kid-one": (real[1], "proxy-A"), "kid-two": (real[2], "proxy-A"), "kid-three": (real[3], "proxy-B")}
+    nonces = ("A" * 22, "B" * 22, "C" * 22)
+    if skew <= 0 or sum(deltas) > _WALL_MAX or any(not (0 <= _W0 + o < _TS_MAX) for o in offs):
+        return None, None
+    world = _World()
+    cache = rp.NonceCache(ttl_seconds=skew, clock=lambda: float(world.t))
+    told: list = []
+
+    def present(k, ts, t):  # type: ignore[no-untyped-def]
+        world.t = t
+        sel = _TOK_FIELDS[k][2]
+        tok = _spec_token(real[sel], names[sel], ts, nonces[k], _ORIGIN)
+        try:
+            pf.verify_proof(tok, secrets=secrets, origin_id=_ORIGIN, skew_seconds=skew, nonce_cache=cache, now=_W0 + t)
+            got = "ok"
+        except pf.ProofError as e:
+            got = e.reason
+        except Exception as e:  # noqa: BLE001
+            got = f"{type(e).__name__}: {e}"
+        told.append(f"t={t}s: {names[sel]} nonce {nonces[k][0]}.. ts=t0{ts - _W0:+d} -> {got}")
+        return got
+
+    bad = _window_run(present, skew, toks, deltas, offs)
+    if bad is None:
+        return None, None
+    i, got, want, kind = bad
+    clause = {"replayed-after-window": f" (step 9: every acceptance of this nonce is more than skew={skew}s old, §10 entries expire after skew seconds)",
+              "accepted-inside-window": f" (step 9: this nonce was accepted less than skew={skew}s ago)"}.get(kind, "")
+    return (f"one worker, skew={skew}s, one replay cache (ttl=skew), wall and monotonic clocks advancing together from t0={_W0}: " + "; ".join(told)
+            + f" — the decision table of docs/proxy-proof-spec.md §6 says {want}{clause}"), kind
+
+
+def _window_args(a: dict, n: int, ntok: int) -> tuple:  # type: ignore[type-arg]
+    toks = [0] + [_tok(int(a[f"x{i}"])) for i in range(1, n)]
+    deltas = [0] + [int(a[f"d{i}"]) for i in range(1, n)]
+    offs = [int(a[f"o{k}"]) for k in range(ntok)] + [0] * (3 - ntok)
+    return int(a["skew"]), toks, deltas, offs
+
+
+def _window_replay(n: int, ntok: int):  # type: ignore[no-untyped-def]
+    return lambda a: _window_real(*_window_args(a, n, ntok))[0]
+
+
+def _window_sig(n: int, ntok: int):  # type: ignore[no-untyped-def]
+    def sig(a: dict, conc) -> str:  # type: ignore[no-untyped-def]
+        kind = _window_real(*_window_args(a, n, ntok))[1]
+        return "C22:verify_proof:nonce-window:" + (kind or "differs-from-decision-table")
+
+    return sig
+
+
+def _tok(x: int) -> int:
+    if x == 1:
+        return 1
+    if x == 2:
+        return 2
+    return 0
+
+
+_STUBS_W = _STUBS_B[:-1] + ["NonceCache := the REAL class (check_and_add / _sweep run as they are), its clock an int that advances with the wall clock, its ttl_seconds "
+                            "attribute set to the int skew (import-time witness that the code reads that attribute)"]
+
+
+@cond(q=300, t=600, stubs=_STUBS_W, encoded=[pf.verify_proof, rp.NonceCache.check_and_add, rp.NonceCache._sweep],
+      bound="4 presentations of 2 valid tokens (A under kid 1, B under kid 2 — rotation overlap; first is A, the others any) at world times 0 <= t1 <= t2 <= t3 "
+            "(unbounded int steps), skew > 0 unbounded, each token's timestamp any int offset from the first clock reading; the instant accepted+skew itself is free",
+      replay=_window_replay(4, 2), signature=_window_sig(4, 2))
+def nonce_window_expires_after_skew(skew: int, x1: int, x2: int, x3: int, d1: int, d2: int, d3: int, o0: int, o1: int) -> bool:
+    """
+    pre: skew > 0 and 0 <= x1 <= 1 and 0 <= x2 <= 1 and 0 <= x3 <= 1 and d1 >= 0 and d2 >= 0 and d3 >= 0
+    pre: o0 >= -_W0 and o1 >= -_W0 and o0 < _TS_MAX - _W0 and o1 < _TS_MAX - _W0
+    post: _
+    """
+    return _window_stubbed(skew, [0, _tok(x1), _tok(x2), _tok(x3)], [0, d1, d2, d3], [o0, o1, 0])
+
+
+@cond(q=150, t=3000, tiers=("thorough",), stubs=_STUBS_W, encoded=[pf.verify_proof, rp.NonceCache.check_and_add, rp.NonceCache._sweep],
+      bound="5 presentations of 3 valid tokens (kids 1, 2, 3; first is A, the others any) at nondecreasing world times (unbounded int steps), skew > 0 unbounded, "
+            "each token's timestamp any int offset from the first clock reading",
+      replay=_window_replay(5, 3), signature=_window_sig(5, 3))
+def nonce_window_expires_after_skew_5(skew: int, x1: int, x2: int, x3: int, x4: int, d1: int, d2: int, d3: int, d4: int, o0: int, o1: int, o2: int) -> bool:
+    """
+    pre: skew > 0 and 0 <= x1 <= 2 and 0 <= x2 <= 2 and 0 <= x3 <= 2 and 0 <= x4 <= 2 and d1 >= 0 and d2 >= 0 and d3 >= 0 and d4 >= 0
+    pre: o0 >= -_W0 and o1 >= -_W0 and o2 >= -_W0 and o0 < _TS_MAX - _W0 and o1 < _TS_MAX - _W0 and o2 < _TS_MAX - _W0
+    post: _
+    """
+    return _window_stubbed(skew, [0, _tok(x1), _tok(x2), _tok(x3), _tok(x4)], [0, d1, d2, d3, d4], [o0, o1, o2])
 
 
 # ---------------------------------------------------------------------------
